@@ -205,6 +205,12 @@ func Drive(c Check, tier string, verifDir string, deadline time.Duration) int {
 				total.Divergences += r.Divergences
 				total.Skipped += r.Skipped
 				for k, v := range r.Extra {
+					if strings.HasPrefix(k, "max_") || strings.HasPrefix(k, "long_") {
+						if v > total.Extra[k] {
+							total.Extra[k] = v
+						}
+						continue
+					}
 					total.Extra[k] += v
 				}
 				for _, o := range r.Outcomes {
@@ -357,6 +363,9 @@ func finishRun(c Check, tier, verifDir string, total *Result, outcomes map[strin
 		"replay_divergences":            total.Divergences,
 		"known_findings_hit":            knownHit,
 		"extra":                         total.Extra,
+	}
+	if v := os.Getenv("VERIF_RACE_RUNS"); v != "" {
+		cov["race_pass"] = map[string]any{"free_running_harness_runs": v, "data_races_reported": os.Getenv("VERIF_RACE_FOUND"), "note": "auxiliary evidence, not the deciding step: uninstrumented build under go -race"}
 	}
 	if len(total.Samples) == 0 {
 		cov["samples"] = []any{"(no sample recorded)"}
